@@ -165,6 +165,12 @@ Proof.
   destruct rs; [discriminate|]. reflexivity.
 Qed.
 
+Lemma has_rows_flat srcs : has_rows srcs = negb (is_nil (flat_rows srcs)).
+Proof.
+  unfold has_rows, flat_rows. induction srcs as [|[n rs] srcs IH]; [reflexivity|].
+  cbn [existsb flat_map fst snd]. destruct rs as [|r rs]; [cbn [map app orb]; exact IH|reflexivity].
+Qed.
+
 Lemma Forall2_refl_sim l : Forall2 sim_item l l.
 Proof.
   induction l as [|e l IH]; constructor; [|exact IH].
@@ -309,78 +315,87 @@ Proof.
     destruct (find_row V (ac_builder ac)) as [row|] eqn:Erow; [|discriminate].
     destruct (negb (forallb (fun x => stores_into ct slot (fst x)) srcs)) eqn:Est; [discriminate|].
     apply negb_false_iff in Est.
-    destruct (true && (is_nil srcs || existsb (fun x => is_nil (snd x)) srcs && replayed_by_locals ac (b_field row))) eqn:Estrict; [discriminate|].
-    cbn [andb] in Estrict. apply orb_false_iff in Estrict as [Hnil Hloc].
+    destruct (true && is_nil srcs) eqn:Hnil; [discriminate|].
+    cbn [andb] in Hnil.
     destruct (b_mode row) eqn:Emode; try discriminate.
     destruct (assoc (b_field row) (it_slots st)) eqn:Enone; [discriminate|]. injection Hb as <-.
     pose proof (forallb_In' _ _ _ (cf_deferred _ _ _ CF) (assoc_In _ _ _ EV)) as Hd.
     unfold deferred_entry_ok in Hd. cbn [fst snd] in Hd. rewrite Erow, Emode in Hd.
     apply andb_prop in Hd as [Hd Hs]. apply andb_prop in Hd as [Hd _]. apply andb_prop in Hd as [_ Hr]. apply ostr_eqb_eq in Hr.
     rewrite (al_def _ _ _ Hal).
-    destruct (unique_step (CSlot (b_field row)) (ac_steps ac)) as [[|g f V'| | | | | | | | | |flags f V' kinds]|] eqn:Eu; try discriminate.
-    + (* replayed by `if let Some(table)`: line numbers *)
-      apply andb_prop in Hs as [Hs Hnames]. apply andb_prop in Hs as [Hf HV].
+    destruct (unique_step (CSlot (b_field row)) (ac_steps ac)) as [[|g f V'| | | | | | | | | |flags f V' kinds whole]|] eqn:Eu; try discriminate.
+    + (* replayed by `if let Some(table)`: line numbers; the reader hands the table over whenever it is filled *)
+      apply andb_prop in Hs as [Hs Hwn]. apply andb_prop in Hs as [Hs Hnames]. apply andb_prop in Hs as [Hf HV].
       apply str_eqb_eq in Hf, HV. subst V'.
       assert (Hgov : forall x, In x srcs -> gov ct (fst x) = Some g).
       { intros x Hx. apply ostr_eqb_eq.
         apply (stored_names_spec ct except slot (fun x => ostr_eqb (gov ct x) g) (fst x) Hct Hnames).
         apply (forallb_In' _ _ _ Est Hx). }
       rewrite (filter_keep_all ct m g srcs Hgov).
+      assert (Hdel : table_delivered ct m slot (if interested m g then srcs else []) = interested m g).
+      { destruct (interested m g); [|reflexivity]. unfold table_delivered.
+        destruct srcs as [|x0 srcs0]; [discriminate Hnil|].
+        destruct (whole_of slot (t_whole ct)); [discriminate Hwn|reflexivity]. }
+      rewrite Hdel.
       apply (grows_of_decomp ct ac AT na m (CSlot (b_field row)) _ st _
                (if interested m g then [EDeferred slot (one_each (flat_rows srcs))] else []) _ Eu).
       * intros s0 H0. apply untouched_slot. exact H0.
       * unfold run_step'. cbn [run_step set_slot it_slots it_flags]. rewrite <- Hf, Enone, assoc_set_same, Hr.
         destruct (interested m g); reflexivity.
       * destruct (interested m g); [|constructor].
-        destruct srcs as [|x0 srcs0]; [discriminate Hnil|]. constructor; [|constructor].
+        constructor; [|constructor].
         cbn [sim_item sim_leaf]. split; [reflexivity|]. unfold same_rows. apply flat_one_each.
-    + (* replayed by Code::accept's filter: local variables *)
-      apply andb_prop in Hs as [Hs Hnames]. apply andb_prop in Hs as [Hf HV].
+    + (* replayed by Code::accept's filter: local variables; reader and replay apply the same guard to what is left of the table *)
+      apply andb_prop in Hs as [Hs Hw]. apply andb_prop in Hs as [Hs Hnames]. apply andb_prop in Hs as [Hf HV].
       apply str_eqb_eq in Hf, HV. subst V'.
-      assert (Hrl : replayed_by_locals ac (b_field row) = true).
-      { destruct (unique_step_spec _ _ _ Eu) as (a & b & Hsteps & _ & _ & _).
-        unfold replayed_by_locals. apply existsb_exists. exists (SLocals flags f V kinds). split.
-        - rewrite Hsteps. apply in_or_app. right. left. reflexivity.
-        - rewrite Hf. apply str_eqb_refl. }
-      rewrite Hrl, andb_true_r in Hloc.
-      assert (Hk : forall x, In x srcs -> exists g, gov ct (fst x) = Some g /\ kind_flag AT kinds (fst x) = Some g /\ mem g flags = true).
+      destruct (whole_of slot (t_whole ct)) as [w|] eqn:Ew; [|discriminate]. apply strs_eqb_eq in Hw. subst w.
+      assert (Hk : forall x, In x srcs -> exists g, gov ct (fst x) = Some g /\ kind_flag AT kinds (fst x) = Some g /\ mem g flags = true /\ mem g whole = true).
       { intros x Hx.
         pose proof (stored_names_spec ct except slot _ (fst x) Hct Hnames (forallb_In' _ _ _ Est Hx)) as Hp.
         cbv beta in Hp. destruct (gov ct (fst x)) as [g|]; [|discriminate].
-        apply andb_prop in Hp as [Hp1 Hp2]. apply ostr_eqb_eq in Hp1. exists g. auto. }
-      (* strict: every attribute that fed the table has rows *)
-      assert (Hne : forall x, In x srcs -> is_nil (snd x) = false).
-      { intros x Hx. destruct (is_nil (snd x)) eqn:E; [|reflexivity].
-        assert (existsb (fun x => is_nil (snd x)) srcs = true) by (apply existsb_exists; exists x; auto). congruence. }
+        apply andb_prop in Hp as [Hp Hp3]. apply andb_prop in Hp as [Hp1 Hp2]. apply ostr_eqb_eq in Hp1. exists g. auto. }
       set (P := fun n : str => match kind_flag AT kinds n with Some g => interested m g | None => false end).
       set (S := filter (fun x => keep_ct ct m (fst x)) srcs) in *.
       assert (HS : filter (fun r : str * Model.row => P (fst r)) (flat_rows srcs) = flat_rows S).
       { rewrite filter_flat_rows. f_equal. apply filter_ext_in. intros x Hx.
         destruct (Hk x Hx) as (g & Hg1 & Hg2 & _). unfold P. rewrite Hg2, (keep_gov ct m _ g Hg1). reflexivity. }
-      assert (HSne : is_nil (flat_rows S) = is_nil S).
-      { apply flat_rows_nil. intros x Hx. apply filter_In in Hx as [Hx _]. exact (Hne x Hx). }
-      assert (Hlne : is_nil (flat_rows srcs) = false).
-      { rewrite (flat_rows_nil srcs Hne). destruct srcs; [discriminate Hnil|reflexivity]. }
+      pose proof (has_rows_flat S) as Hhr.
+      set (D := table_delivered ct m slot S).
+      assert (HD : (if existsb (interested m) flags
+                    then (if negb (is_nil (flat_rows S)) || forallb (interested m) whole then [EDeferred slot (one_each (flat_rows S))] else [])
+                    else [])
+                   = if D then [EDeferred slot (one_each (flat_rows S))] else []).
+      { unfold D, table_delivered. rewrite Ew, Hhr.
+        destruct (existsb (interested m) flags) eqn:Eex.
+        - destruct (negb (is_nil (flat_rows S))) eqn:Enr; cbn [orb].
+          + destruct S as [|y S0]; [cbn in Enr; discriminate Enr|reflexivity].
+          + destruct (forallb (interested m) whole) eqn:Ewh.
+            * (* a visitor with all the interests of the guard keeps every source *)
+              assert (HSall : S = srcs).
+              { unfold S. apply filter_all_true. intros x Hx. destruct (Hk x Hx) as (g & Hg1 & _ & _ & Hg4).
+                rewrite (keep_gov ct m _ g Hg1). rewrite forallb_forall in Ewh. apply Ewh.
+                unfold mem in Hg4. apply existsb_exists in Hg4 as (y & Hy & Hyg). apply str_eqb_eq in Hyg. subst y. exact Hy. }
+              rewrite HSall. destruct srcs; [discriminate Hnil|reflexivity].
+            * destruct S; reflexivity.
+        - (* no flag of the outer test is on: no source is kept *)
+          assert (HSn : S = []).
+          { apply filter_all_false. intros x Hx. destruct (Hk x Hx) as (g & Hg1 & _ & Hg3 & _).
+            rewrite (keep_gov ct m _ g Hg1).
+            destruct (interested m g) eqn:Ei; [|reflexivity].
+            assert (existsb (interested m) flags = true).
+            { apply existsb_exists. exists g. split; [|exact Ei].
+              unfold mem in Hg3. apply existsb_exists in Hg3 as (y & Hy & Hyg). apply str_eqb_eq in Hyg. subst y. exact Hy. }
+            congruence. }
+          rewrite HSn. reflexivity. }
       apply (grows_of_decomp ct ac AT na m (CSlot (b_field row)) _ st _
-               (match S with [] => [] | _ => [EDeferred slot (one_each (flat_rows S))] end) _ Eu).
+               (if D then [EDeferred slot (one_each (flat_rows S))] else []) _ Eu).
       * intros s0 H0. apply untouched_slot. exact H0.
       * unfold run_step'. cbn [run_step set_slot it_slots it_flags]. rewrite <- Hf, Enone, assoc_set_same, Hr.
         change (filter (fun r : str * Model.row => match kind_flag AT kinds (fst r) with Some g => interested m g | None => false end) (flat_rows srcs))
           with (filter (fun r : str * Model.row => P (fst r)) (flat_rows srcs)).
-        rewrite HS, Hlne, HSne. cbn [orb].
-        destruct (existsb (interested m) flags) eqn:Eex.
-        -- destruct S; reflexivity.
-        -- (* no flag of the guard is on: no source is kept *)
-           assert (HSn : S = []).
-           { apply filter_all_false. intros x Hx. destruct (Hk x Hx) as (g & Hg1 & _ & Hg3).
-             rewrite (keep_gov ct m _ g Hg1).
-             destruct (interested m g) eqn:Ei; [|reflexivity].
-             assert (existsb (interested m) flags = true).
-             { apply existsb_exists. exists g. split; [|exact Ei].
-               unfold mem in Hg3. apply existsb_exists in Hg3 as (y & Hy & Hyg). apply str_eqb_eq in Hyg. subst y. exact Hy. }
-             congruence. }
-           rewrite HSn. reflexivity.
-      * destruct S as [|y S0] eqn:ES; [constructor|]. constructor; [|constructor].
+        rewrite HS, <- HD.
+        destruct (existsb (interested m) flags); reflexivity.
+      * destruct D; [|constructor]. constructor; [|constructor].
         cbn [sim_item sim_leaf]. split; [reflexivity|]. unfold same_rows. apply flat_one_each.
   - (* ECode *)
     destruct (act_full ct attr) as [[| | | |sk|]|] eqn:Ea; try discriminate.
@@ -465,7 +480,7 @@ Proof.
 Qed.
 
 Definition step_field (s : astep) : option str :=
-  match s with SOpt _ f _ | SVec _ f _ | SLocals _ f _ _ => Some f | _ => None end.
+  match s with SOpt _ f _ | SVec _ f _ | SLocals _ f _ _ _ => Some f | _ => None end.
 
 Lemma justified_field ct ac s f : step_justified ct ac s = true -> step_field s = Some f -> In f (builder_fields ac).
 Proof.
